@@ -4,7 +4,6 @@ import (
 	"context"
 	"database/sql"
 	"fmt"
-	"math/rand/v2"
 	"reflect"
 	"sort"
 	"strings"
@@ -30,9 +29,9 @@ import (
 // PermCase is the replayable descriptor of one permutation case.
 type PermCase struct {
 	Dialect string `json:"dialect"`
-	Source  string `json:"source"` // pool:<name> | all | half | all+aux
-	Mode    string `json:"mode"`   // create: empty -> perm(src); modify: other -> perm(src); drop: perm(src) -> empty; rev: perm(src) -> other
-	Perm    []int  `json:"perm"`   // block order
+	Source  string `json:"source"`          // pool:<name> | all | half | all+aux
+	Mode    string `json:"mode"`            // create: empty -> perm(src); modify: other -> perm(src); drop: perm(src) -> empty; rev: perm(src) -> other
+	Perm    []int  `json:"perm"`            // block order
 	Split   []int  `json:"split,omitempty"` // file number of every (permuted) position; nil = one document
 }
 
@@ -374,13 +373,13 @@ func execAll(db *sql.DB, stmts []string) error {
 // ---- one case -----------------------------------------------------------------------------------
 
 type permResult struct {
-	verdict string // held | violated | inconclusive | ood
-	key     string
-	why     string
-	detail  map[string]any
-	digest  string
-	stmts   int
-	moved   bool // statement sequence differs from the baseline's
+	verdict  string // held | violated | inconclusive | ood
+	key      string
+	why      string
+	detail   map[string]any
+	digest   string
+	stmts    int
+	moved    bool // statement sequence differs from the baseline's
 	executed bool
 }
 
